@@ -146,7 +146,7 @@ def build(spec):
             w = jr.normal(key, (dim, dim)) * 0.3
             w = w.at[jnp.diag_indices(dim)].set(1.0)
             tri = B.TriangularAffine(jnp.zeros(dim), w)
-            return B.Chain([B.LeakyTanh(3.0, (dim,)), _vspline({**spec, "interval": [-1.0, 1.0]}, dim), B.Invert(B.LeakyTanh(3.0, (dim,))), tri])
+            return B.Chain([B.LeakyTanh(3.0, (dim,)), _vspline(spec, dim), B.Invert(B.LeakyTanh(3.0, (dim,))), tri])
 
         layers = eqx.filter_vmap(make_layer)(jr.split(jr.PRNGKey(seed), L))
         sc = B.Scan(layers)
